@@ -310,6 +310,19 @@ func ruleEmptyOnly(c *Ctx, remove *ssa.Function, dirT *types.Named) {
 							return true
 						}
 					}
+					// a private predicate of the directory: func (d *Dir) isEmpty() bool { return len(d.nodes) == 0 }
+					if call, ok := k.v.(*ssa.Call); ok {
+						if h := call.Call.StaticCallee(); h != nil && h.Pkg == ri.fn.Pkg && len(call.Call.Args) == 1 {
+							if isPred, trueMeansEmpty := emptyPredicate(h); isPred && k.pol == trueMeansEmpty {
+								for _, d := range dirAsserts {
+									if derivesFrom(call.Call.Args[0], d, 0) {
+										okc = true
+										return true
+									}
+								}
+							}
+						}
+					}
 					if bo, ok := k.v.(*ssa.BinOp); ok {
 						var other ssa.Value
 						if kv, ok := constInt(bo.Y); ok && kv == 0 {
@@ -650,4 +663,45 @@ func guardHelperEstablishesRemovable(h *ssa.Function, dirT *types.Named) bool {
 		}
 	}
 	return n > 0
+}
+
+// emptyPredicate: h is `func (x *T) p() bool` all of whose returns compare the length of a
+// slice/map field of the receiver with 0; trueMeansEmpty tells the polarity.
+func emptyPredicate(h *ssa.Function) (isPred, trueMeansEmpty bool) {
+	if h == nil || h.Blocks == nil || h.Signature.Recv() == nil || len(h.Params) != 1 || h.Signature.Results().Len() != 1 || !isBoolType(h.Signature.Results().At(0).Type()) {
+		return false, false
+	}
+	first := true
+	for _, r := range returnsOf(h) {
+		bo, ok := resolve(r.Results[0]).(*ssa.BinOp)
+		if !ok {
+			return false, false
+		}
+		kv, okK := constInt(bo.Y)
+		lc, okC := bo.X.(*ssa.Call)
+		if !okK || kv != 0 || !okC {
+			return false, false
+		}
+		if b, ok := lc.Call.Value.(*ssa.Builtin); !ok || b.Name() != "len" {
+			return false, false
+		}
+		root, path := fieldPathOf(lc.Call.Args[0])
+		if root != ssa.Value(h.Params[0]) || len(path) != 1 {
+			return false, false
+		}
+		var pos bool
+		switch bo.Op {
+		case token.EQL, token.LEQ:
+			pos = true
+		case token.NEQ, token.GTR:
+			pos = false
+		default:
+			return false, false
+		}
+		if !first && pos != trueMeansEmpty {
+			return false, false
+		}
+		trueMeansEmpty, first = pos, false
+	}
+	return !first, trueMeansEmpty
 }
